@@ -768,6 +768,13 @@ func c17Regain(tier string, seed int64, idx int, scratch string) rt.CaseResult {
 		eff = []int{5, 1, 7, 12}[idx/3%4]
 		eo.Mode, eo.NoValid, eo.MaxDirCount = dbx.Grpc, true, uint64(eff)
 	}
+	if nroots > 1 && idx%4 < 2 {
+		// sibling roots whose paths are string prefixes of one another ("vol", "volx", "volxx"):
+		// a directory belongs to the root it lies directly in, not to the first root its path starts with
+		for i := 0; i < nroots; i++ {
+			eo.RootPaths = append(eo.RootPaths, filepath.Join(eo.Dir, "vol"+strings.Repeat("x", i)))
+		}
+	}
 	env, err := dbx.Open(eo)
 	if err != nil {
 		c.Violate("open-failed", err.Error(), nil)
@@ -834,44 +841,73 @@ func c17Regain(tier string, seed int64, idx int, scratch string) rt.CaseResult {
 		}
 		return out, true
 	}
+	// mkdirFault: writes until the creation of a directory is attempted, which fails once
+	// (injected; the write that hits it fails); after that every write must succeed again and
+	// every configured root must have a directory on offer.
+	mkdirFault := func(tag string) bool {
+		fired := false
+		verif.SetOpFault(func(op, path string) error {
+			if op == "os.mkdirall" && !fired {
+				fired = true
+				return fmt.Errorf("injected mkdir failure")
+			}
+			return nil
+		})
+		for i := 0; i < 3*eff && !fired; i++ { // until a directory is replaced
+			k := fmt.Sprintf("fk%s-%d", tag, i)
+			err := r.Env.DB.Set(ctxBg, k, []byte("x"))
+			if err == nil {
+				r.M.Write(refmodel.Autocommit, k, "x", false)
+				nk++
+			}
+		}
+		verif.SetOpFault(nil)
+		if !fired {
+			return true
+		}
+		for i := 0; i < 5; i++ {
+			k := fmt.Sprintf("after-fault%s-%d", tag, i)
+			if err := r.Env.DB.Set(ctxBg, k, []byte("y")); err != nil {
+				c.Violate("root-offers-no-directory after-mkdir-failure", fmt.Sprintf("%s: the creation of a directory failed once (injected); the write %d after it still fails: %v", tag, i, err), replay)
+				return false
+			}
+			r.M.Write(refmodel.Autocommit, k, "y", false)
+			nk++
+		}
+		if cands, err := verif.DirCandidates(ctxBg, r.Env.C); err == nil {
+			have := map[string]bool{}
+			for _, d := range cands {
+				have[d.Root] = true
+			}
+			for _, root := range r.Env.Cfg.Storage.RootDirs {
+				c.Evals++
+				if !have[root] {
+					c.Violate("root-offers-no-directory after-mkdir-failure other-roots-take-the-writes", fmt.Sprintf("%s: the creation of a directory failed once (injected); five writes later the root %s still has no directory on offer (the writes went to the other roots)", tag, root), replay)
+					return false
+				}
+			}
+		}
+		c.Count("mkdir_faults_survived", 1)
+		return true
+	}
+	// the very first replacement of the very first directory fails: no other directory exists yet
+	if eo.Mode == dbx.Inline {
+		if err := r.Env.DB.Set(ctxBg, "first", []byte("x")); err == nil {
+			r.M.Write(refmodel.Autocommit, "first", "x", false)
+			nk++
+		}
+		if !mkdirFault("first") {
+			return c
+		}
+	}
 	cycles := tierN(tier, 3, 5)
 	lastRegained := map[string]int{}
 	for cycle := 0; cycle < cycles; cycle++ {
 		// "every root always offers a directory to write to" - also after the creation of a new
 		// directory has failed once: one injected mkdir failure per cycle (the write that hits it
 		// fails), after which every write must succeed again
-		if cycle > 0 && eo.Mode == dbx.Inline {
-			fired := false
-			verif.SetOpFault(func(op, path string) error {
-				if op == "os.mkdirall" && !fired {
-					fired = true
-					return fmt.Errorf("injected mkdir failure")
-				}
-				return nil
-			})
-			faultKeys := 0
-			for i := 0; i < 3*eff && !fired; i++ { // until a directory is replaced
-				k := fmt.Sprintf("fk%d-%d", cycle, i)
-				err := r.Env.DB.Set(ctxBg, k, []byte("x"))
-				if err == nil {
-					r.M.Write(refmodel.Autocommit, k, "x", false)
-					faultKeys++
-					nk++
-				}
-			}
-			verif.SetOpFault(nil)
-			if fired {
-				for i := 0; i < 5; i++ {
-					k := fmt.Sprintf("after-fault%d-%d", cycle, i)
-					if err := r.Env.DB.Set(ctxBg, k, []byte("y")); err != nil {
-						c.Violate("root-offers-no-directory after-mkdir-failure", fmt.Sprintf("cycle %d: the creation of a directory failed once (injected); the write %d after it still fails: %v", cycle, i, err), replay)
-						return c
-					}
-					r.M.Write(refmodel.Autocommit, k, "y", false)
-					nk++
-				}
-				c.Count("mkdir_faults_survived", 1)
-			}
+		if cycle > 0 && eo.Mode == dbx.Inline && !mkdirFault(fmt.Sprintf("c%d", cycle)) {
+			return c
 		}
 		// a file from Create that stays open (nothing written yet) while the directories fill up
 		// and rotate; it is written and closed after the fill
